@@ -161,7 +161,7 @@ func runC13(c *report.Ctx) {
 		an.Module + "/masswallet/keystore.padByteSlice": true,
 		"(*math/big.Int).SetBytes":                       true,
 	}
-	ruleBigIntBytes(c, pkgKeystore, 6, san, nil)
+	ruleBigIntBytes(c, pkgKeystore, 3, san, nil)
 	// padByteSlice itself left-pads
 	pad := fn(c, pkgKeystore, "", "padByteSlice")
 	if pad != nil {
@@ -483,6 +483,8 @@ func runC13(c *report.Ctx) {
 	}
 	ruleSharedBigIntsImmutable(c, []string{pkgKeystore}, 3)
 	ruleValidatedTokensAreDecodedTokens(c)
+	ruleMnemonicWordCount(c)
+	ruleWordMapExact(c)
 }
 
 func ifOf(r ssa.Instruction) *ssa.If {
